@@ -140,7 +140,7 @@ func famIcaHost(t *testing.T, r *hx.Rng, o *hx.Out) {
 			return hostMsg{&banktypes.MsgSend{FromAddress: icaStr, ToAddress: to.String(), Amount: coin(amt)}, sendEff(ica, to, amt)}
 		}
 	}
-	n := hx.N(260, 6000)
+	n := hx.N(260, 2500)
 	for i := 0; i < n; i++ {
 		enabled := true
 		allow := []string{"*"}
